@@ -5,7 +5,9 @@ sharing one shared-memory segment, passwd semaphore and .PASSWDS) validated as t
 direct predicates on results, SHM index, .PASSWDS and the value of the passwd semaphore (read by the
 driver after every controller step and at the end of every phase) decide violations. Scenarios are
 histories: one or more phases on the same shared memory / semaphore / worker processes (e.g. a same-id
-race whose loser is refused inside the lock, then 2-3 interleaved registrations)."""
+race whose loser is refused inside the lock, then 2-3 interleaved registrations). Worker processes also JOIN while
+registrations of the others are parked at their schedule points (exec + the normal start-up, which runs cmbbs.PasswdInit
+on the attach path) and LEAVE (exit / SIGKILL) with their calls parked anywhere, e.g. holding the lock (SEM_UNDO)."""
 import concurrent.futures, json, os, sys
 sys.path.insert(0, os.path.join(os.path.dirname(os.path.abspath(__file__)), "..", "lib"))
 import vf
@@ -13,6 +15,14 @@ import vf
 MODEL_RECHECKS = 1      # 1 when Model/C15.v code_rechecks = true (one more step inside the critical section)
 WITNESS = [0, 1, 0, 0, 0, 1, 1, 1]      # A.Check, B.Check, A.Lock .. A.Unlock, B.Lock .. B.Unlock
 OBS = 1000000                           # Model/C15.v OBS: "the semaphore value was read here"
+JOIN, DIE = 2000000, 3000000            # Model/C15.v: JOIN + p = process p runs its start-up; DIE + p = process p is gone
+J = lambda p: -(10 + p)                 # schedule tokens of the driver (c15Token): process p starts now,
+Q = lambda p: -(30 + p)                 # exits normally,
+K = lambda p: -(50 + p)                 # is killed
+
+
+def tok(x):
+    return str(x) if x >= 0 else ("J%d" if x > -30 else "Q%d" if x > -50 else "K%d") % ((-x - 10) % 20)
 
 
 class Case:
@@ -32,7 +42,8 @@ class Case:
         return "3|%d|%s|" % (self.mode, enc(self.tab)) + "|".join("%s|%s|%s" % (nums(p), enc(i), nums(s)) for p, i, s in self.phases)
 
     def describe(self):
-        return "; then ".join("procs=%s ids=%s schedule=%s" % (p, [x.decode("latin-1") for x in i], s) for p, i, s in self.phases)
+        return "; then ".join("procs=%s ids=%s schedule=[%s]" % (p, [x.decode("latin-1") for x in i], ", ".join(tok(x) for x in s)) for p, i, s in self.phases) \
+               + (" (Jp: process p starts and runs its start-up incl. PasswdInit; Qp: process p exits; Kp: process p is killed)" if any(x < 0 for ph in self.phases for x in ph[2]) else "")
 
     @staticmethod
     def from_line(line):
@@ -123,15 +134,27 @@ def model_schedule(ev):
                 sch += [-(t + 1)]                           # semop returned EINTR while waiting
         elif code == 11:
             sch += [OBS]                                    # the driver read the semaphore value here
+        elif code == 12:
+            sch += [JOIN + t]                               # process t ran its start-up (PasswdInit, attach path)
+        elif code == 13:
+            sch += [DIE + t]                                # process t exited / was killed: SEM_UNDO, its calls never return
     return sch
 
 
-def sem_predicates(ev, who):
+def sem_predicates(ev, who, procs=()):
     """the passwd semaphore, from the driver's own readings (trace code 11) and the observed schedule points:
     never above 1; 0 exactly while a call is between reg.locked and its return; 1 when no call is inside — in
-    particular at the end of every phase, after refusals inside the lock; and never two calls inside at once."""
-    bad, inside, nread = [], [], 0
+    particular at the end of every phase, after refusals inside the lock; and never two calls inside at once.
+    A process joining (code 12) changes nothing; a process going away (code 13) takes its calls out of the lock, and the
+    kernel gives the semaphore back (SEM_UNDO): the same rule applies to the readings after both."""
+    bad, inside, nread, last = [], [], 0, ""
     for t, code, v in ev:
+        if code == 12:
+            last = " (first reading after process %d finished its start-up, which includes cmbbs.PasswdInit)" % t
+        elif code == 13:
+            last = " (first reading after process %d %s)" % (t, "was killed" if v else "exited")
+        elif code != 11:
+            last = ""
         if code in (2, 3):
             if t not in inside:
                 inside.append(t)
@@ -140,12 +163,15 @@ def sem_predicates(ev, who):
         elif code in (4, 5):
             if t in inside:
                 inside.remove(t)
+        elif code == 13:
+            inside = [u for u in inside if u >= len(procs) or procs[u] != t]
         elif code == 11:
             nread += 1
             if v > 1:
-                bad.append(("reg-sem-above-1", "the passwd semaphore has value %d (reading #%d; calls inside the lock: %s): it was posted more often than taken and no longer excludes anybody: %s" % (v, nread, inside, who)))
+                bad.append(("reg-sem-above-1", "the passwd semaphore has value %d (reading #%d%s; calls inside the lock: %s): it was posted more often than taken and no longer excludes anybody: %s" % (v, nread, last, inside, who)))
             elif v != (0 if inside else 1):
-                bad.append(("reg-sem-value", "the passwd semaphore has value %d at reading #%d but the calls inside the lock are %s (expected %d): %s" % (v, nread, inside, 0 if inside else 1, who)))
+                bad.append(("reg-sem-value", "the passwd semaphore has value %d at reading #%d%s but the calls inside the lock are %s (expected %d): %s" % (v, nread, last, inside, 0 if inside else 1, who)))
+            last = ""
     if nread == 0:
         bad.append(("reg-driver", "the driver reported no semaphore reading: " + who))
     seen = set()
@@ -168,14 +194,20 @@ def predicates(case, out, nslots):
     ev, rs, look, idx, pwd = p
     init = list(tab) + [b""] * (nslots - len(tab))
     who = "%s events=%s results=%s" % (case.describe(), [e for e in ev if e[1] != 11], rs)
-    bad += sem_predicates(ev, who)
+    bad += sem_predicates(ev, who, procs)
     if any(code == 0 for code, _, _ in rs):
         bad.append(("reg-unfinished", "a call neither failed nor returned: " + who))
     succ = [(t, v) for t, (code, v, _) in enumerate(rs) if code == 1]
-    for t, uid in succ:
+    # calls whose process went away after they had written the index and .PASSWDS (seen at reg.beforeUnlock) but before
+    # they returned: nobody was told, but the account exists; they hold their slot and their id like a success
+    orphan = [(t, v) for t, (code, v, _) in enumerate(rs) if code == 3 and v > 0]
+    for t, (code, v, _) in enumerate(rs):
+        if code == 3 and not any(e[1] == 13 and e[0] == procs[t] for e in ev):
+            bad.append(("reg-driver", "thread %d is reported dead but its process never went away: %s" % (t, who)))
+    for t, uid in succ + orphan:
         if not (1 <= uid <= nslots) or init[uid - 1] != b"":
             bad.append(("reg-slot-not-free", "thread %d was given uid %d, which was not a free slot: %s" % (t, uid, who)))
-    if len(set(u for _, u in succ)) != len(succ):
+    if len(set(u for _, u in succ + orphan)) != len(succ + orphan):
         bad.append(("reg-shared-slot", "two successful registrations share a slot: " + who))
     taken = {}
     for k, i in enumerate(init):
@@ -183,29 +215,34 @@ def predicates(case, out, nslots):
             taken.setdefault(low(i), []).append("slot %d (before)" % (k + 1))
     for t, uid in succ:
         taken.setdefault(low(ids[t]), []).append("thread %d -> uid %d" % (t, uid))
+    for t, uid in orphan:
+        taken.setdefault(low(ids[t]), []).append("thread %d (died after writing) -> uid %d" % (t, uid))
     for k, v in sorted(taken.items()):
         if len(v) > 1 and any(x.startswith("thread") for x in v):
             bad.append(("reg-duplicate-id", "user id %r (case-insensitive) is held more than once after concurrent registrations: %s; %s" % (k.decode("latin-1"), ", ".join(v), who)))
     want = list(init)
-    for t, uid in succ:
+    for t, uid in succ + orphan:
         if 1 <= uid <= nslots:
             want[uid - 1] = ids[t]
     if idx != want or pwd != want:
         d = [(k + 1, want[k], idx[k], pwd[k]) for k in range(nslots) if not (idx[k] == want[k] == pwd[k])]
         bad.append(("reg-index-passwds-disagree", "SHM index / .PASSWDS do not hold exactly the successful registrations: (uid, expected, index, .PASSWDS) = %s; %s" % (d[:4], who)))
-    for t, uid in succ:
+    for t, uid in succ + orphan:
         l = look[t]
         if not (1 <= l <= nslots) or low(idx[l - 1]) != low(ids[t]) or (len(taken[low(ids[t])]) == 1 and l != uid):
             bad.append(("reg-index-lookup", "looking up the id of successful thread %d answers uid %d (its slot is %d): %s" % (t, l, uid, who)))
-        if mode == 1 and len(taken[low(ids[t])]) == 1 and rs[t][2] != uid:
+        if mode == 1 and rs[t][0] == 1 and len(taken[low(ids[t])]) == 1 and rs[t][2] != uid:
             bad.append(("reg-returned-uid", "NewRegister of thread %d returned uid %d but wrote slot %d: %s" % (t, rs[t][2], uid, who)))
     return bad
 
 
-def stress_predicates(pool, tab, shape, out, nslots):
-    """same predicates on an unscheduled run: nproc processes x ngor goroutines each registering every id of the pool"""
+def stress_predicates(pool, tab, shape, out, nslots, njoin=0, rounds=1):
+    """same predicates on an unscheduled run: nproc processes x ngor goroutines each registering every id of the pool;
+    njoin of the processes are started (exec + start-up with PasswdInit) while the registrations of the others are in flight"""
     f = out.split()
     who = "processes x goroutines = %s, pool=%s" % (shape, [i.decode("latin-1") for i in pool])
+    if njoin:
+        who += ", every id %d times, the last %d processes started up while the others were registering" % (rounds, njoin)
     if f[:1] == ["2"]:
         return [("reg-hang", "unscheduled concurrent registrations did not all return (deadline): " + who)], {}
     if f[:1] != ["0"]:
@@ -222,8 +259,8 @@ def stress_predicates(pool, tab, shape, out, nslots):
         k = {0: "registered", 1: "exists", 2: "no slot", 104: "semop interrupted"}.get(r[3], "error %d" % r[3])
         stats[k] = stats.get(k, 0) + 1
     succ = [r for r in recs if r[3] == 0]
-    if len(recs) != shape[0] * shape[1] * len(pool):
-        bad.append(("reg-unfinished", "%d of %d calls reported a result: %s" % (len(recs), shape[0] * shape[1] * len(pool), who)))
+    if len(recs) != shape[0] * shape[1] * len(pool) * rounds:
+        bad.append(("reg-unfinished", "%d of %d calls reported a result: %s" % (len(recs), shape[0] * shape[1] * len(pool) * rounds, who)))
     for r in succ:
         if not (1 <= r[4] <= nslots) or init[r[4] - 1] != b"":
             bad.append(("reg-slot-not-free", "a registration was given uid %d, which was not a free slot: %s; %s" % (r[4], r, who)))
@@ -279,7 +316,8 @@ def replay_main(path):
         g = [x.split() for x in cs.split("|")]
         print("case   %s\nresult %s" % (cs[:2000], o[:2000]))
         if g[0] == ["2"]:
-            found = stress_predicates(dec(g[2]), dec(g[3]), (int(g[1][0]), int(g[1][1])), o, obj.get("nslots", 50))[0]
+            nj, rounds = (int(g[1][2]), int(g[1][3])) if len(g[1]) > 2 else (0, 1)
+            found = stress_predicates(dec(g[2]), dec(g[3]), (int(g[1][0]) + nj, int(g[1][1])), o, obj.get("nslots", 50), nj, rounds)[0]
         else:
             found = predicates(Case.from_line(cs), o, obj.get("nslots", 50))
         for key, desc in found:
@@ -364,6 +402,63 @@ def main():
         phases.append(([rng.randrange(nproc) for _ in range(nt)], ids, s))
         phases.append(([0], [rng.choice([b"late99", b"late99", pool[3]])], []))
         cases.append(Case(rng.choice([0, 0, 0, 1]), table(free), phases)); kinds.append("history/%s,%dx" % (kind, nt))
+    nhist = len(cases)
+    # ---- processes joining and leaving while registrations are in flight. A joining process is exec'ed at the token Jp and
+    # runs the normal start-up (attach shared memory, cmbbs.PasswdInit with no handle yet: the semaphore exists, attach path)
+    # while the calls of the others are parked wherever the schedule left them - before the check, after it, waiting for the
+    # semaphore, holding it before the slot search, holding it after the write, returned. Starting must not touch the lock.
+    for kind, (a, b) in sorted(pairs.items()):
+        for s in interleavings([4, 4]):                             # A in process 0; B in process 1, which joins before B's first step
+            for j in range(s.index(1) + 1):
+                cases.append(Case(0, T_STD, [([0, 1], [a, b], s[:j] + [J(1)] + s[j:]), ([0], [b"late99"], [])])); kinds.append("join/2x/" + kind)
+    njoin2 = len(cases)
+    for _ in range(1200 if thorough else 80):                       # 3 registrations, 1-2 joiners, other processes around, few free slots
+        nt = 3
+        joiners = rng.choice([[2], [2], [1, 2], [2, 3]])
+        procs = [rng.choice([0, 0, 1] + joiners) for _ in range(nt)]
+        procs[rng.randrange(nt)] = joiners[0]
+        ids = [rng.choice(pool) for _ in range(nt)]
+        s = [t for t in range(nt) for _ in range(4)]
+        rng.shuffle(s)
+        for p in joiners:                                           # the join goes anywhere; calls of a process not yet up start after it
+            s.insert(rng.randrange(len(s) + 1), J(p))
+        free = rng.choice([10, 10, 3, 2, 1])
+        cases.append(Case(rng.choice([0, 0, 0, 1]), table(free), [(procs, ids, s), ([rng.choice([0] + joiners)], [rng.choice([b"late99", pool[0], pool[3]])], [])]))
+        kinds.append("join/3x/free=%d" % free)
+    njoin = len(cases)
+    # A process leaving - exit (Qp) or SIGKILL (Kp) - with its calls parked anywhere: SEM_UNDO must give the semaphore back exactly
+    # when a call of that process held it; a waiter of another process then gets it; registrations issued afterwards (the id of
+    # the dead call, another id) must get through, and every reading obeys the same rule (0 with a call inside, else 1).
+    for tk in (Q, K):
+        for cproc in (0, 1):                                        # A in process 1 (which goes away); C in process 0, or in process 1 too
+            for na in range(4):
+                for nc in range(4):
+                    for s in interleavings([na, nc]):               # every position of A and C (0..3 segments done each), every order
+                        s2 = [0, 0, 0, 0, 1, 1, 1, 1]
+                        rng.shuffle(s2)
+                        cases.append(Case(0, T_STD, [([1, cproc], [b"newuser1", b"other22"], s + [tk(1)]),
+                                                     ([0, 0], [b"newuser1", b"fresh01"], s2), ([0], [b"late99"], [])]))
+                        kinds.append("leave/2x/" + ("exit" if tk is Q else "kill"))
+    nleave2 = len(cases)
+    for _ in range(1500 if thorough else 100):                      # churn: 2-3 registrations over 3 processes, one leaves at a random
+        nt = rng.choice([2, 3, 3])                                  # moment, sometimes another one joins before or after, then more calls
+        procs = [rng.choice([0, 1, 1, 2]) for _ in range(nt)]
+        ids = [rng.choice(pool) for _ in range(nt)]
+        s = [t for t in range(nt) for _ in range(4)]
+        rng.shuffle(s)
+        victim = rng.choice([1, 1, 2])
+        s.insert(rng.randrange(len(s) + 1), rng.choice([Q, K])(victim))
+        p2 = [0]
+        if rng.random() < 0.5:
+            s.insert(rng.randrange(len(s) + 1), J(3))
+            p2 = [0, 3]
+        nt2 = rng.choice([1, 2])
+        s2 = [t for t in range(nt2) for _ in range(4)]
+        rng.shuffle(s2)
+        free = rng.choice([10, 10, 3, 2])
+        cases.append(Case(rng.choice([0, 0, 0, 1]), table(free), [(procs, ids, s), ([rng.choice(p2) for _ in range(nt2)], [rng.choice(ids + [b"fresh01"]) for _ in range(nt2)], s2),
+                                                                    ([0], [b"late99"], [])]))
+        kinds.append("churn/%dx/free=%d" % (nt, free))
     lines = [cs.line() for cs in cases]
     io = run_cases(impl, lines)
     vf.ipc_cleanup()
@@ -371,7 +466,9 @@ def main():
     for k in kinds:
         c.cov["distribution"][k] = c.cov["distribution"].get(k, 0) + 1
     c.cov["exhaustive_parts"] = ["all 70 interleavings of 2 registrations at the 4 segments (check / lock / critical section / unlock) x {same id, ids differing in case, different ids} x {one process, two processes} (%d executions)" % (n2 - nw),
-                                 "all 70 interleavings of 2 registrations of different ids issued after a same-id race whose loser was refused inside the lock, on the same semaphore x {one process, two processes, refusal and interleaving in different processes} (%d executions)" % (nh2 - nsingle)]
+                                 "all 70 interleavings of 2 registrations of different ids issued after a same-id race whose loser was refused inside the lock, on the same semaphore x {one process, two processes, refusal and interleaving in different processes} (%d executions)" % (nh2 - nsingle),
+                                 "a process joining (exec + start-up with cmbbs.PasswdInit on the attach path) at every point of every interleaving of 2 registrations (one in a running process, one in the joining process) before the joiner's first step x {same id, ids differing in case, different ids} (%d executions)" % (njoin2 - nhist),
+                                 "a process leaving (exit, SIGKILL) with its registration after 0..3 of its 4 segments and a second registration (same process / another process) after 0..3 segments, every order of these steps, followed by 2 interleaved registrations (the dead call's id, another id) and a late one (%d executions)" % (nleave2 - njoin)]
 
     mlines, midx = [], []
     outcomes = {}
@@ -387,13 +484,13 @@ def main():
             continue
         ev, rs, look, idx, pwd = p
         c.nontrivial((kinds[k].split("/")[0], tuple(case.procs), tuple(case.ids), len([i for i in case.tab if i]), tuple(ev)))
-        oc = "".join("S" if code == 1 else {1: "E", 2: "N", 104: "I"}.get(v, "?") for code, v, _ in rs[:-1])
+        oc = "".join("S" if code == 1 else "D" if code == 3 else {1: "E", 2: "N", 104: "I"}.get(v, "?") for code, v, _ in rs[:-1])
         outcomes[oc] = outcomes.get(oc, 0) + 1
         nsem += len([1 for e in ev if e[1] == 11])
         # ---- the observed trace must be a trace of the model with the same outcome
-        mlines.append("1|%s|%s|%s" % (enc(case.ids), enc(case.tab), " ".join(map(str, model_schedule(ev)))))
+        mlines.append("2|%s|%s|%s|%s" % (" ".join(map(str, case.procs)), enc(case.ids), enc(case.tab), " ".join(map(str, model_schedule(ev)))))
         midx.append(k)
-    c.cov["outcomes(S=registered,E=exists,N=no slot,I=semop interrupted)"] = outcomes
+    c.cov["outcomes(S=registered,E=exists,N=no slot,I=semop interrupted,D=process went away)"] = outcomes
     c.cov["semaphore_readings_checked"] = nsem
     if model and mlines:
         mo = vf.run_model(model, mlines)
@@ -417,31 +514,44 @@ def main():
         shape = rng.choice([(2, 8), (3, 6), (1, 16), (2, 12)])
         pool = list(spool)
         rng.shuffle(pool)
-        scases.append((shape, pool, table(rng.choice([10, 10, 5, 20]))))
-    slines = ["2|%d %d|%s|%s" % (sh[0], sh[1], enc(pool), enc(tab)) for sh, pool, tab in scases]
+        scases.append((shape, pool, table(rng.choice([10, 10, 5, 20])), 0))
+    for r in range(120 if thorough else 8):                         # processes start up while the others register; few free slots, so that
+        shape = rng.choice([(2, 8), (2, 6), (1, 12), (3, 4)])       # nearly every call goes through the lock (and is refused for want of a slot)
+        pool = list(spool)
+        rng.shuffle(pool)
+        nj = rng.choice([1, 2, 2])
+        scases.append(((shape[0] + nj, shape[1]), pool, table(rng.choice([3, 5, 2])), nj))
+    SROUNDS = 12                                                    # long enough for the start-up of the joiners to fall among the registrations
+    slines = ["2|%d %d%s|%s|%s" % (sh[0] - nj, sh[1], " %d %d" % (nj, SROUNDS) if nj else "", enc(pool), enc(tab)) for sh, pool, tab, nj in scases]
     sio = run_cases(impl, slines, par=4)
     vf.ipc_cleanup()
     c.count(len(slines), "unscheduled stress runs")
     sstats = {}
-    for (sh, pool, tab), line, o in zip(scases, slines, sio):
-        bad, st = stress_predicates(pool, tab, sh, o, nslots)
+    for (sh, pool, tab, nj), line, o in zip(scases, slines, sio):
+        bad, st = stress_predicates(pool, tab, sh, o, nslots, nj, SROUNDS if nj else 1)
         for k, v in st.items():
             sstats[k] = sstats.get(k, 0) + v
         for key, desc in bad:
             c.violation(key, desc, {"cases": [line], "got": o[:3000], "nslots": nslots})
-        c.nontrivial(("stress", sh, tuple(pool), tuple(sorted(st.items()))))
+        c.nontrivial(("stress", sh, nj, tuple(pool), tuple(sorted(st.items()))))
     c.cov["stress_call_results"] = sstats
-    for k in (0, nw + 5, n2 + 1, nsingle + 5, nh2 + 1):
+    for k in (0, nw + 5, n2 + 1, nsingle + 5, nh2 + 1, nhist + 7, njoin2 + 1, njoin + 40, nleave2 + 1):
         c.sample({"kind": kinds[k], "history": cases[k].describe(), "observed": io[k][:400]})
 
     c.finish(rule="the witness schedule (Check,Check,Lock..Unlock,Lock..Unlock) in one process, across two processes and through NewRegister; every interleaving of 2 registrations "
                   "(4 segments each) x 3 id relations x in-process/cross-process; PRNG(seed)-sampled interleavings of 3 registrations over 1..3 processes on tables with 10/3/2/1/0 free slots and of "
                   "2 registrations racing for the last slots; histories on one semaphore/table/set of workers: a refusal inside the lock (same id, case twins, last free slot; sometimes two) followed by "
                   "every interleaving of 2 registrations (x 3 process layouts) and PRNG(seed)-sampled interleavings of 2-3 registrations over 1..3 processes, then a late registration; "
+                  "processes joining and leaving while registrations are in flight: a worker process started (exec, shared-memory attach, cmbbs.PasswdInit on the attach path) at every point of every "
+                  "interleaving of 2 registrations before the joiner's own first step x 3 id relations, PRNG(seed)-sampled 3-registration histories with 1-2 joiners; a worker process exiting / killed with its "
+                  "registration after 0..3 segments and a second registration (same / other process) after 0..3 segments in every order, then registrations of the dead call's id and of another id; "
+                  "PRNG(seed)-sampled churn (a process leaves at a random moment, sometimes another joins, more calls); unscheduled runs in which 1-2 processes start up while the others register on a nearly full table; "
                   "the driver reads the semaphore value (semctl GETVAL, workers alive) before the first call, after every controller step and after every phase, and after every unscheduled run; "
                   "a case is non-trivial/distinct by its (shape, process assignment, ids, table fill, observed event trace)",
              assumptions=["semop(2) on the passwd semaphore is an atomic P/V granting exclusivity; one DoSearchUserRaw / SetUserID / .PASSWDS record write is one atomic step of the model (the controller serialises the threads at the schedule points)",
                           "tryCleanUser is a no-op during the runs (.fresh is recent): account expiry is C03's subject",
+                          "SEM_UNDO: when a process goes away (exit or SIGKILL) the kernel adds its per-process adjustment to the semaphore before the parent's wait returns; the harness stops a process only while its calls are parked at the schedule points, in semop, or not started",
+                          "a call whose process went away after it had written the index and .PASSWDS (seen at reg.beforeUnlock) holds its slot and id although it never returned",
                           "free slots are chained in ascending order after a load (the model takes the lowest free slot; checked by the trace validation)"])
 
 
